@@ -10,6 +10,17 @@ from .spec import build, LOADS, TYPE_OF
 from .model import RefSystem
 from . import checks
 
+def flag(b, form):
+    """A boolean argument in another legal spelling."""
+    if form == "np":
+        import numpy as np
+
+        return np.bool_(b)
+    if form == "int":
+        return int(b)
+    return b
+
+
 EDIT_OPS = ("new", "add_source", "add_comp", "change_comp", "del_comp", "set_sys_phases", "set_comp_phases")
 ANALYSIS_OPS = ("solve", "rail_rep", "params", "limits", "phases", "tree", "save", "make_diag", "make_hdiag", "plot_interp", "batt_life")
 
@@ -75,7 +86,7 @@ class Session:
         elif k == "change_comp":
             sysobj.change_comp(op["name"], comp=build(op["comp"]), group=op["group"], rail=op["rail"])
         elif k == "del_comp":
-            sysobj.del_comp(op["name"], del_childs=op["del_childs"])
+            sysobj.del_comp(op["name"], del_childs=flag(op["del_childs"], op.get("flagform")))
         elif k == "set_sys_phases":
             sysobj.set_sys_phases(copy.deepcopy(op["phases"]))
         elif k == "set_comp_phases":
@@ -298,7 +309,9 @@ class Session:
         if self.sut is None:
             self.outcomes.append("skip")
             return
-        if k in EDIT_OPS:
+        if k == "bulk":
+            self.apply_bulk(op)
+        elif k in EDIT_OPS:
             self.apply_edit(op)
         elif k in ANALYSIS_OPS:
             from .analyses import apply_analysis
@@ -318,6 +331,38 @@ class Session:
             apply_enumeration(self, op)
         else:
             raise HarnessError("unknown op " + k)
+
+    # ------------------------------------------------------------------
+    def apply_bulk(self, op):
+        """Many accepted additions in a row, no report in between (scale run
+        classes: hundreds of siblings, long chains)."""
+        for sub_ in op["ops"]:
+            if self._must_reject(sub_):
+                continue
+            res = self._guard(lambda: self._call_edit(self.sut, sub_, self.w.S))
+            if res[0] != "ok":
+                self.stats["bulk_edit_rejected:" + res[1]] += 1
+                if "C16" in self.enabled or "C14" in self.enabled:
+                    self.fail("C16" if "C16" in self.enabled else "C14", "legal-edit-accepted", "%s raised %s(%s)" % (_opsum(sub_), res[1], res[2]))
+                break
+            r2 = self._guard(lambda: self._call_edit(self.shadow, sub_, self.w.S))
+            if self.pristine is not None:
+                r3 = self._guard(lambda: self._call_edit(self.pristine, sub_, self.w.S))
+                if r3[0] != "ok":
+                    self.pristine = None
+            self._model_apply(sub_)
+            if r2[0] != "ok":
+                self._twin_fail("shadow rejected an edit the SUT accepted: %r" % (r2,), sub_)
+            self.stats["edit_ok"] += 1
+        self.dirty = True
+        self.outcomes.append("ok")
+        self.interleave.append(("bulk", "ok"))
+        self.stats["bulk_ops"] += 1
+        self.stats["bulk_components_added"] += len(op["ops"])
+        self.nontrivial.add(("scale", op.get("what", "")[:5], len(self.model.order) // 50))
+        self.prev_snap = None if self.sparse else self.snapshot(self.sut)
+        if self.prev_snap is not None:
+            self.check_structure(self.prev_snap)
 
     # ------------------------------------------------------------------
     def apply_edit(self, op):
